@@ -488,6 +488,6 @@ func (f *PF[E, FP, F]) Case(t *rapid.T) {
 func TestFieldOps(t *testing.T) {
 	vlib.Check(t, 16000, func(t *rapid.T) {
 		fs := primeFields()
-		fs[rapid.IntRange(0, len(fs)-1).Draw(t, "field")].Case(t)
+		fs[uniform(t, "field", len(fs))].Case(t)
 	})
 }
